@@ -24,6 +24,8 @@ ASSUMPTIONS = [
     "device model: '<prefix> <list>' / '<prefix> add <list>' adds, 'undo|no <prefix> [remove] <list>' removes, 'undo <prefix> all' / "
     "'<prefix> none' / 'undo instance N' clears; lines of one set are a partition of it (no VLAN on two lines), as devices print them",
     "an empty set is represented by the absence of the line",
+    "cisco Catalyst global VLANs (kind cs-global): list lines 'vlan <ranges>' and named 'vlan N' blocks are disjoint on each side (a Catalyst does "
+    "not repeat a VLAN that has a block in the list lines); 'vlan L' / a 'vlan N' block header create, 'no vlan L' deletes",
     "huawei global VLANs (kind hw-global): on both sides every 'vlan N' block's VLAN is also in the 'vlan batch' lines (VRP adds it there "
     "itself); 'undo vlan N' and 'undo vlan batch N' both delete the VLAN everywhere (tests/annet/test_patch/huawei_vlan_global_and_batch.yaml)",
 ]
@@ -32,7 +34,7 @@ FLOORS = {}
 U6 = [2, 3, 4, 6, 7, 10]
 U8 = [2, 3, 4, 6, 7, 10, 11, 20]
 KINDS = ["hw-trunk", "hw-tagged", "hw-batch", "hw-instance", "cs-swtrunk", "nx-vlan"]
-GEN_KINDS = KINDS + ["hw-global", "hw-global"]
+GEN_KINDS = KINDS + ["hw-global", "hw-global", "cs-global", "cs-global"]
 
 
 # ------------------------------------------------------------------ own range helpers (not annet's)
@@ -185,6 +187,8 @@ def _cases(draw):
     mode = draw(st.sampled_from(["device", "device", "file"]))
     if kind == "hw-global":
         return draw(_global_case(mode))
+    if kind == "cs-global":
+        return draw(_global_case(mode, "cs-global"))
     base = draw(_vset())
     so = set(base) | draw(_vset())
     sn = (set(base) | draw(_vset())) - draw(_vset())
@@ -207,20 +211,24 @@ def _cases(draw):
 
 
 @st.composite
-def _global_case(draw, mode):
-    """huawei global VLANs: the set is declared by 'vlan batch' lines (1..3 lines) and by 'vlan N' blocks (with a name); a VLAN may be in both"""
+def _global_case(draw, mode, kind="hw-global"):
+    """cisco Catalyst global VLANs (kind cs-global): list lines 'vlan 2-5,7' and named blocks 'vlan 9' / 'name x'; a VLAN that has a
+    block is not repeated in the list lines (the way Catalysts print them).
+    huawei global VLANs: the set is declared by 'vlan batch' lines (1..3 lines) and by 'vlan N' blocks (with a name); a VLAN may be in both"""
     uni = draw(st.sets(st.integers(2, 40), min_size=1, max_size=12))
     def side():
         blocks = sorted(draw(st.sets(st.sampled_from(sorted(uni)), max_size=4)))
         # VRP invariant: declaring a 'vlan N' block puts N into the batch list too, so a block's VLAN is always in the batch lines
         batch = sorted(set(draw(st.sets(st.sampled_from(sorted(uni)), max_size=len(uni)))) | set(blocks))
+        if kind == "cs-global":
+            batch = sorted(set(batch) - set(blocks))
         rs = ranges(batch)
         k = draw(st.integers(1, 3))
         cuts = sorted(draw(st.sets(st.integers(1, max(1, len(rs) - 1)), max_size=k - 1))) if len(rs) > 1 else []
         b = [0] + cuts + [len(rs)]
         lines = [rs[b[i]:b[i + 1]] for i in range(len(b) - 1) if rs[b[i]:b[i + 1]]]
         return {"batch_lines": lines, "blocks": blocks}
-    return {"kind": "hw-global", "mode": mode, "old": side(), "new": side()}
+    return {"kind": kind, "mode": mode, "old": side(), "new": side()}
 
 
 def strategy(tier):
@@ -250,13 +258,15 @@ def _check_global(case):
     from annet.annlib.netdev.views.hardware import HardwareView
     from annet.api import _diff_and_patch, _read_old_new_diff_patch
     from vf.model import sut
-    hw = HardwareView(MODEL["hw"], "")
-    labels = ["kind:hw-global", "mode:" + case["mode"]]
+    kind = case["kind"]
+    cs = kind == "cs-global"
+    hw = HardwareView(MODEL["cs" if cs else "hw"], "")
+    labels = ["kind:" + kind, "mode:" + case["mode"]]
 
     def tree(side):
         t = odict()
         for l in side["batch_lines"]:
-            t["vlan batch " + fmt_hw(l)] = odict()
+            t[("vlan " + fmt_cs(l)) if cs else ("vlan batch " + fmt_hw(l))] = odict()
         for n in side["blocks"]:
             t["vlan %d" % n] = odict([("name v%d" % n, odict())])
         return t
@@ -271,13 +281,16 @@ def _check_global(case):
         _, d, _, pt = _read_old_new_diff_patch(old, new, hw, False)
     paths = list(sut.registry().match(hw).make_formatter(indent="").cmd_paths(pt).keys())
     cmds = [p[0] for p in paths if len(p) == 1]
-    det = {"kind": "hw-global", "mode": case["mode"], "old_rows": list(old), "new_rows": list(new), "commands": cmds}
+    det = {"kind": kind, "mode": case["mode"], "old_rows": list(old), "new_rows": list(new), "commands": cmds}
     cur = set(s_old)
     keep = s_old & s_new
     import re as _re
     for c in cmds:
-        m = _re.fullmatch(r"(undo )?vlan batch (.+)", c)
-        if m:
+        m = _re.fullmatch(r"(no )?vlan ([\d,-]+)", c) if cs else _re.fullmatch(r"(undo )?vlan batch (.+)", c)
+        if m and cs:
+            got = {v for part in m.group(2).split(",") for v in range(int(part.split("-")[0]), int(part.split("-")[-1]) + 1)}
+            cur = (cur - got) if m.group(1) else (cur | got)
+        elif m:
             if m.group(1):
                 cur -= parse_list(m.group(2))
             else:
@@ -285,16 +298,16 @@ def _check_global(case):
         else:
             m = _re.fullmatch(r"(undo )?vlan (\d+)", c)
             if not m:
-                raise Violation("foreign-command", f"unexpected command {c!r} for hw-global", det)
+                raise Violation("foreign-command", f"unexpected command {c!r} for {kind}", det)
             if m.group(1):
                 cur.discard(int(m.group(2)))
             else:
                 cur.add(int(m.group(2)))
         if not keep <= cur:
-            raise Violation("transient-loss", f"hw-global/{case['mode']}: after {c!r} VLANs {sorted(keep - cur)} present in both sets are gone "
+            raise Violation("transient-loss", f"{kind}/{case['mode']}: after {c!r} VLANs {sorted(keep - cur)} present in both sets are gone "
                             f"(old rows {list(old)}, new rows {list(new)})", det)
     if cur != s_new:
-        raise Violation("wrong-final-set", f"hw-global/{case['mode']}: commands {cmds} turn {sorted(s_old)} into {sorted(cur)}, expected {sorted(s_new)}", det)
+        raise Violation("wrong-final-set", f"{kind}/{case['mode']}: commands {cmds} turn {sorted(s_old)} into {sorted(cur)}, expected {sorted(s_new)}", det)
     removed_blocks = [n for n in case["old"]["blocks"] if n not in case["new"]["blocks"]]
     if any(n in s_new for n in removed_blocks):
         labels.append("block-removed-vlan-stays")
@@ -305,7 +318,7 @@ def _check_global(case):
 
 
 def check(case):
-    if case["kind"] == "hw-global":
+    if case["kind"] in ("hw-global", "cs-global"):
         return _check_global(case)
     from annet.annlib.netdev.views.hardware import HardwareView
     from annet.api import _diff_and_patch, _read_old_new_diff_patch
